@@ -114,6 +114,8 @@ type Contracts struct {
 	Axioms  []*Clause
 	TypeInvs []*Clause
 	Guarded  []*Guarded
+	StateFields []*StateFields
+	Callers  []*CallersRule
 	pureMemo map[*ssa.Function]int
 	Defines  map[string]string // $NAME macros (textual)
 	Files   []string
@@ -124,7 +126,7 @@ var tagRe = regexp.MustCompile(`\s*\[((?:C\d+)(?:\s*,\s*C\d+)*)\]\s*$`)
 
 var clauseKeywords = map[string]bool{
 	"func": true, "requires": true, "ensures": true, "modifies": true, "pure": true, "trusted": true,
-	"loop": true, "site": true, "ghost": true, "nonnil": true, "guarded_by": true, "nilable": true, "fields_copied": true,
+	"loop": true, "site": true, "ghost": true, "nonnil": true, "guarded_by": true, "state_fields": true, "callers": true, "nilable": true, "fields_copied": true,
 	"sweep": true, "package": true, "axiom": true, "allow": true, "witness": true, "nosafety": true,
 	"deferrule": true, "skipfield": true, "preserves": true, "typeinv": true, "updates": true, "deterministic": true, "init": true, "nosite": true, "blocks": true, "define": true, "fnspec": true, "result": true, "param": true, "implements": true,
 }
@@ -606,6 +608,34 @@ func (cs *Contracts) parseFile(path, pkg string, external bool) error {
 				g.Except = w[3:]
 			}
 			cs.Guarded = append(cs.Guarded, g)
+		case "callers":
+			head, tail, ok := strings.Cut(rest, " : ")
+			if !ok || len(strings.Fields(head)) == 0 || len(strings.Fields(tail)) == 0 {
+				return fail("callers <callee> ... : <func> ...")
+			}
+			cs.Callers = append(cs.Callers, &CallersRule{Callees: strings.Fields(head), Allowed: strings.Fields(tail), Tags: tags, File: path, Line: rc.line})
+		case "state_fields":
+			// state_fields T: f1 f2 ... [except func ...]
+			head, tail, ok := strings.Cut(rest, ":")
+			if !ok || strings.TrimSpace(head) == "" {
+				return fail("state_fields <Type>: <field> ... [except <func> ...]")
+			}
+			sf := &StateFields{Type: pkg + "." + strings.TrimSpace(head), Fields: map[string]bool{}, Tags: tags, File: path, Line: rc.line}
+			if strings.TrimSpace(head) == "globals" {
+				sf.Type, sf.Globals = "globals", true
+			}
+			exc := false
+			for _, x := range strings.Fields(tail) {
+				switch {
+				case x == "except":
+					exc = true
+				case exc:
+					sf.Except = append(sf.Except, x)
+				default:
+					sf.Fields[x] = true
+				}
+			}
+			cs.StateFields = append(cs.StateFields, sf)
 		case "nonnil":
 			for _, n := range strings.Fields(strings.ReplaceAll(rest, ",", " ")) {
 				if strings.HasPrefix(n, "elem:") || strings.Contains(n, "/") {
